@@ -105,14 +105,15 @@ Print Assumptions C12_server_settings.
 (* 6. The two endpoints together (Model/TimedNet.v): a client endpoint and the server-side connection
       of that client under one clock, the server loop's time-out rule (server_sweep) with
       connection_timeout T, the client's 5 s rule (inside client_tick), and a network that shows every
-      datagram to the peer at most d after its emission (copies and reordering within d, and junk the
-      receiver cannot open, allowed) while both sides call update() at least every tau (tvalid).
+      datagram to the peer at most d after its emission (reordering, further copies up to `life` after
+      the emission, and junk the receiver cannot open, allowed) while both sides call update() at least
+      every tau (tvalid).
       For an established idle pair (established: both CONNECTED under the same key, nothing queued,
       each side has the other's newest datagram, liveness clocks no older than one keep-alive
       period), EVERY keep-alive interval / send interval of either side, EVERY T, tau, d with
           max(K_client, si_client) + tau + d <  T        (the server removes at now - last_recv >= T)
           max(K_server, si_server) + tau + d <= 5 s      (the client reports DROPPED at now > last_recv + 5 s)
-          d <= (HALF - 1) * (max(K, si) + 1) for both sides   (fewer than half the 16-bit ring in flight)
+          d <= life <= (HALF - 1) * (max(K, si) + 1) for both sides   (fewer than half the 16-bit ring alive)
       (params_ok) and EVERY admissible history of ANY length:
       (1) both sides are still CONNECTED under the key and the server has not removed the client; *)
 Theorem C12_idle_pair_stays_up : forall e P k cli srv t0 hs,
@@ -185,7 +186,7 @@ Print Assumptions C12_idle_pair_client_bound_tight.
 
 (* Modelled, not verified: real clocks and the threads that call update(); socket buffering (the
    history says when each datagram is shown to the receiver: the client reads one per update());
-   replays of datagrams older than d, in particular of the handshake's CHALLENGE_RESP (sealed under
+   replays of datagrams older than `life`, in particular of the handshake's CHALLENGE_RESP (sealed under
    the session key before the pair was established), are outside tvalid; bytes whose header does
    not parse make UdpClient.update raise and are outside tvalid. *)
 
@@ -207,8 +208,9 @@ Example C12_connect_timeout_fires :
 Proof. vm_compute. reflexivity. Qed.
 
 (* the two-endpoint theorems are not vacuous: the state the MODEL's own handshake produces is an
-   established pair, and a history with delays of 600 and 900 ticks, duplicates, junk and a
-   simultaneous delivery satisfies tvalid for tau = 300, d = 900, T = 5 s (defaults K = 0.1 s) *)
+   established pair, and a history with delays of 600 and 900 ticks, duplicates (also 1800 ticks late),
+   junk and a simultaneous delivery satisfies tvalid for tau = 300, d = 900, life = 2700, T = 5 s
+   (defaults K = 0.1 s) *)
 Example C12_idle_pair_hypotheses_hold :
   established 7 (ex_t0 + 900) (nA ex_hs4) (nB ex_hs4) /\ params_ok ex_P (nA ex_hs4) (nB ex_hs4)
   /\ tvalid env1500 ex_P (tnet0 (nA ex_hs4) (nB ex_hs4) (ex_t0 + 900)) ex_hist.
